@@ -19,6 +19,9 @@ fn dr_name(region: RegionId, rf: &crate::world::Rf) -> String {
 
 impl Monitor for Mon {
     fn after_op(&mut self, w: &mut World, rec: &OpRecord, stats: &mut RunStats) -> Option<Violation> {
+        if let Some((kind, detail, msg)) = take_stack_alert(w, &["rx-config", "rx-refused"]) {
+            return Some(Violation::new(&format!("C10.chip-{kind}"), &detail, format!("full stack (real lora-phy on a simulated chip): {msg}")));
+        }
         if rec.result.is_panic() {
             stats.bump("probe.foreign-panic");
             return None;
@@ -252,7 +255,8 @@ impl Property for C10 {
 impl C10 {
     pub fn own_generate(&self, seed: u64, run: u64, _tier: Tier, _avoid: &BTreeSet<String>) -> MacCase {
         let mut r = Rng::new(run_seed(seed, "C10", run));
-        let cfg = gen_cfg(&mut r, &CfgProfile { frontends: ALL_FRONTENDS, otaa_pct: 40, boundary_counters_pct: 5, join_bias_pct: 40 });
+        let mut cfg = gen_cfg(&mut r, &CfgProfile { frontends: ALL_FRONTENDS, otaa_pct: 40, boundary_counters_pct: 5, join_bias_pct: 40 });
+        maybe_phy(&mut r, &mut cfg, 1, 5);
         let mut ops = Vec::new();
         if cfg.otaa {
             let mut t = Txn { tx_ms: *r.pick(&[0u32, 61, 1400]), ..Txn::default() };
